@@ -30,11 +30,12 @@ EXPLANATION = (
     "(order.sethash). Does not decide full parser correctness on arbitrary text nor equality of compiled states.")
 
 
-def _dict_of(fn: ast.FunctionDef, name: str = "mapping") -> ast.Dict:
-    for n in fn.body:
-        if isinstance(n, ast.Assign) and isinstance(n.value, ast.Dict) and norm(n.targets[0]) == name:
-            return n.value
-    raise AnalysisError(f"{fn.name}: `{name}` dict display not found")
+def _dict_of(fn: ast.FunctionDef) -> ast.Dict:
+    """the one dict display assigned at the top level of the function (the table), whatever the local is called"""
+    ds = [n.value for n in fn.body if isinstance(n, ast.Assign) and isinstance(n.value, ast.Dict) and len(n.value.keys) > 3]
+    if len(ds) != 1:
+        raise AnalysisError(f"{fn.name}: table dict display not found")
+    return ds[0]
 
 
 def json_tables(repo: Repo):
@@ -154,19 +155,25 @@ def rule_wrapper_export_order(ctx: Ctx) -> None:
     fn = repo.anchor(OQ, "single_qubit_wrapper_info")
     ctx.touch(m, fn)
     lst = func_params(fn)[0]
+    # names are read off the result constructor: OpenQASMInfo(<gate name>, <imports>, <definitions>, ...)
+    info = [c for r in ast.walk(fn) if isinstance(r, ast.Return) and isinstance(r.value, ast.Call) and call_name(r.value) == "OpenQASMInfo"
+            for c in [r.value] if len(c.args) >= 3 and isinstance(c.args[0], ast.Name) and isinstance(c.args[2], ast.Name)]
+    if not info:
+        raise AnalysisError("single_qubit_wrapper_info: `return OpenQASMInfo(<name>, <imports>, <definitions>, ...)` not found")
+    GN, DEFS = info[-1].args[0].id, info[-1].args[2].id
     body_var = None
     for n in ast.walk(fn):
         # the variable spliced into the "gate <name> a { ... }" definition
-        if isinstance(n, ast.Call) and call_attr(n) == "append" and "definitions" in norm(n.func.value):
+        if isinstance(n, ast.Call) and call_attr(n) == "append" and norm(n.func.value) == DEFS:
             names = [x.id for x in ast.walk(n.args[0]) if isinstance(x, ast.Name)]
             for cand in names:
-                if order.loop_accumulations(fn, cand) and cand not in ("gate_name",):
+                if order.loop_accumulations(fn, cand) and cand != GN:
                     body_var = cand
     if body_var is None:
         raise AnalysisError("single_qubit_wrapper_info: composite body accumulator not found")
     for var, want, why in ((body_var, -1, "openQASM applies the statements of a gate body first to last, while a wrapper's list "
                                           "means 'last listed acts first' (unwrap() reverses it)"),
-                           ("gate_name", 1, "from_openqasm rebuilds the wrapper's list from the letters of the name in order")):
+                           (GN, 1, "from_openqasm rebuilds the wrapper's list from the letters of the name in order")):
         acc = order.loop_accumulations(fn, var)
         if not acc:
             raise AnalysisError(f"single_qubit_wrapper_info: accumulation of `{var}` not found")
